@@ -97,7 +97,11 @@ func (t WebsocketTransport) startReader() {
 				return
 			}
 			if len(data) > 0 {
-				t.queue <- data
+				select {
+				case t.queue <- data:
+				case <-t.closeCtx.Done():
+					return
+				}
 			}
 		}
 	}()
@@ -160,18 +164,16 @@ func (t *WebsocketTransport) LogTraffic(logFile io.Writer) {
 
 func (t *WebsocketTransport) cleanup(code websocket.StatusCode) error {
 	var err error
-	if t.queue != nil {
-		close(t.queue)
-		t.queue = nil
+	// Cancel the context first: it is what stops the reader go routine and makes Read return.
+	// The queue is deliberately not closed (the reader go routine may still be sending on it)
+	// and the cancelled context is kept so that later reads keep failing cleanly.
+	if t.closeFunc != nil {
+		t.closeFunc()
+		t.closeFunc = nil
 	}
 	if t.wsConn != nil {
 		err = t.wsConn.Close(websocket.StatusGoingAway, "Done")
 		t.wsConn = nil
-	}
-	if t.closeFunc != nil {
-		t.closeFunc()
-		t.closeFunc = nil
-		t.closeCtx = nil
 	}
 	return err
 }
